@@ -100,6 +100,24 @@ pub(crate) fn parse_defchordv2(
     Ok(chords_container)
 }
 
+/// True if the action is, or contains, the transparent action.
+fn contains_trans(a: &KanataAction) -> bool {
+    use kanata_keyberon::action::Action;
+    match a {
+        Action::Trans => true,
+        Action::MultipleActions(acs) => acs.iter().any(contains_trans),
+        Action::HoldTap(ht) => {
+            contains_trans(&ht.hold) || contains_trans(&ht.tap) || contains_trans(&ht.timeout_action)
+        }
+        Action::OneShot(os) => contains_trans(os.action),
+        Action::TapDance(td) => td.actions.iter().any(|a| contains_trans(a)),
+        Action::Fork(f) => contains_trans(&f.left) || contains_trans(&f.right),
+        Action::Switch(sw) => sw.cases.iter().any(|(_, a, _)| contains_trans(a)),
+        Action::Chords(g) => g.chords.iter().any(|(_, a)| contains_trans(a)),
+        _ => false,
+    }
+}
+
 fn parse_single_chord(
     chunk: &[SExpr],
     s: &ParserState,
@@ -113,6 +131,14 @@ fn parse_single_chord(
         );
     }
     let action = parse_action(&chunk[1], s)?;
+    // The literal `_` is refused by parse_action_atom while chordsv2 is being parsed, but an alias
+    // (parsed earlier, without the restriction) may still carry it: check the parsed tree.
+    if contains_trans(action) {
+        bail_expr!(
+            &chunk[1],
+            "Transparent action is forbidden within chordsv2 (also when it comes from an alias)"
+        );
+    }
     let timeout = parse_timeout(&chunk[2], s)?;
     let release_behaviour = parse_release_behaviour(&chunk[3], s)?;
     let disabled_layers = parse_disabled_layers(&chunk[4], s)?;
